@@ -27,7 +27,8 @@ type Engine struct {
 	specs     map[string]*pkgSpec
 	contracts map[*ssa.Function]*Contract
 	byKey     map[string]*Contract
-	elabSrc   map[string]string // rel dir -> synthetic source
+	ifaceContracts map[*types.Func]*Contract // contracts of interface methods (assumed of every implementation)
+	elabSrc  map[string]string // rel dir -> synthetic source
 
 	loopCache map[*ssa.Function]*LoopInfo
 	modCache  map[*ssa.Function]*ModSet
@@ -54,6 +55,7 @@ type Engine struct {
 	models          map[string]*model
 	extraOverlay    map[string]string // path -> replacement file (self-test mutations)
 	curProp         string            // property being checked in this run
+	constGlobals    map[*ssa.Global]*ssa.Const
 }
 
 func (eng *Engine) readExtraOverlay(path string) error {
@@ -74,7 +76,7 @@ func newEngine(repo string) *Engine {
 		elabSrc: map[string]string{}, loopCache: map[*ssa.Function]*LoopInfo{}, modCache: map[*ssa.Function]*ModSet{},
 		implCache: map[string][]*ssa.Function{}, keyInfos: map[string]keyInfo{}, closures: map[string]*closureInfo{}, ifaceLocs: map[string]*Loc{},
 		ranges: map[*ssa.Range]*rangeInfo{}, safeOrd: map[string]int{}, tags: map[string]int{}, funcRefs: map[*ssa.Function]int{},
-		pkgs: map[string]*ssa.Package{}, floatConsts: map[uint64]bool{},
+		pkgs: map[string]*ssa.Package{}, floatConsts: map[uint64]bool{}, ifaceContracts: map[*types.Func]*Contract{},
 		maxInline: 8, maxInlineInstrs: 150, maxDispatch: 12}
 }
 
@@ -157,12 +159,17 @@ func (eng *Engine) load(mirror string, patterns []string) error {
 		for _, c := range ps.contracts {
 			c.PkgPath = path
 			if !c.IsLemma {
-				f := eng.lookupFunc(sp, c.Key)
-				if f == nil {
-					return fmt.Errorf("%s: function %s not found in SSA", dir, c.Key)
+				if m := eng.lookupIfaceMethod(sp, c.Key); m != nil {
+					c.IfaceMethod = m
+					eng.ifaceContracts[m] = c
+				} else {
+					f := eng.lookupFunc(sp, c.Key)
+					if f == nil {
+						return fmt.Errorf("%s: function %s not found in SSA", dir, c.Key)
+					}
+					c.Fn = f
+					eng.contracts[f] = c
 				}
-				c.Fn = f
-				eng.contracts[f] = c
 			}
 			eng.byKey[c.FullKey()] = c
 			bind := func(cl *Clause) error {
@@ -180,6 +187,7 @@ func (eng *Engine) load(mirror string, patterns []string) error {
 			cls = append(cls, c.Requires...)
 			cls = append(cls, c.Ensures...)
 			cls = append(cls, c.Modifies...)
+			cls = append(cls, c.Preserves...)
 			cls = append(cls, c.AllocExpr)
 			for _, cs := range c.Calls {
 				cls = append(cls, cs.Clause)
@@ -200,6 +208,29 @@ func (eng *Engine) load(mirror string, patterns []string) error {
 	}
 	eng.initModels()
 	return eng.applySweeps()
+}
+
+// lookupIfaceMethod resolves a key "<Interface>.<Method>" to the method of a
+// named interface type of the package (declared in it, not embedded).
+func (eng *Engine) lookupIfaceMethod(sp *ssa.Package, key string) *types.Func {
+	i := strings.LastIndex(key, ".")
+	if i < 0 || strings.HasPrefix(key, "(") {
+		return nil
+	}
+	tn, ok := sp.Pkg.Scope().Lookup(key[:i]).(*types.TypeName)
+	if !ok {
+		return nil
+	}
+	it, ok := tn.Type().Underlying().(*types.Interface)
+	if !ok {
+		return nil
+	}
+	for j := 0; j < it.NumExplicitMethods(); j++ {
+		if m := it.ExplicitMethod(j); m.Name() == key[i+1:] {
+			return m
+		}
+	}
+	return nil
 }
 
 func (eng *Engine) lookupFunc(sp *ssa.Package, key string) *ssa.Function {
@@ -306,6 +337,85 @@ func (eng *Engine) needFloat() {
 	for _, f := range []string{"g_fneg", "g_i2f", "g_u2f", "g_f2i", "g_f2u", "g_fceil", "g_ffloor"} {
 		eng.globalDecls = append(eng.globalDecls, fmt.Sprintf("(declare-fun %s (%s) %s)", f, b, b))
 	}
+}
+
+// constGlobal returns the constant a package-level variable of the module holds
+// when the loaded program never writes it outside its initialiser and never
+// takes its address (every use is a load or the initialising store).
+func (eng *Engine) constGlobal(g *ssa.Global) *ssa.Const {
+	if eng.constGlobals == nil {
+		eng.constGlobals = map[*ssa.Global]*ssa.Const{}
+		bad := map[*ssa.Global]bool{}
+		inits := map[*ssa.Global]*ssa.Const{}
+		nstores := map[*ssa.Global]int{}
+		var scan func(f *ssa.Function)
+		seen := map[*ssa.Function]bool{}
+		scan = func(f *ssa.Function) {
+			if f == nil || seen[f] {
+				return
+			}
+			seen[f] = true
+			for _, b := range f.Blocks {
+				for _, ins := range b.Instrs {
+					if _, isDbg := ins.(*ssa.DebugRef); isDbg {
+						continue
+					}
+					for _, op := range ins.Operands(nil) {
+						gl, ok := (*op).(*ssa.Global)
+						if !ok {
+							continue
+						}
+						switch x := ins.(type) {
+						case *ssa.UnOp:
+							continue // load
+						case *ssa.Store:
+							if x.Addr == gl && x.Val != gl {
+								nstores[gl]++
+								if k, isK := x.Val.(*ssa.Const); isK && f.Name() == "init" && f.Pkg == gl.Pkg {
+									inits[gl] = k
+								} else {
+									bad[gl] = true
+								}
+								continue
+							}
+						}
+						bad[gl] = true
+					}
+				}
+			}
+			for _, a := range f.AnonFuncs {
+				scan(a)
+			}
+		}
+		for _, p := range eng.prog.AllPackages() {
+			for _, m := range p.Members {
+				if f, ok := m.(*ssa.Function); ok {
+					scan(f)
+				}
+			}
+		}
+		for f := range ssautil.AllFunctions(eng.prog) {
+			scan(f)
+		}
+		for gl, k := range inits {
+			if !bad[gl] && nstores[gl] == 1 && gl.Pkg != nil && strings.HasPrefix(gl.Pkg.Pkg.Path(), modulePath) {
+				if _, ok := ptrElem(gl.Type()).Underlying().(*types.Basic); ok {
+					eng.constGlobals[gl] = k
+				}
+			}
+		}
+	}
+	return eng.constGlobals[g]
+}
+
+// needDecl adds a global declaration once.
+func (eng *Engine) needDecl(d string) {
+	for _, x := range eng.globalDecls {
+		if x == d {
+			return
+		}
+	}
+	eng.globalDecls = append(eng.globalDecls, d)
 }
 
 func (eng *Engine) needStrBytes() {
